@@ -123,6 +123,12 @@ func inputForm(id string) (arg, host, scheme string) {
 		return host + ":80", host, "https"
 	case "host8443":
 		return host + ":8443", host, "https"
+	case "host08443":
+		return host + ":08443", host, "https"
+	case "https008443":
+		return "https://" + host + ":008443/x", host, "https"
+	case "host0443":
+		return host + ":0443", host, "https"
 	case "https":
 		return "https://" + host, host, "https"
 	case "upper":
